@@ -260,11 +260,27 @@ def explore(run, max_paths=20000, on_path=None):
     res = ExploreResult()
     work = [[]]
     n = 0
+    import os as _os, time as _time
+    t_start = _time.time()
+    # a broken tree can make thousands of obligations time out in the solvers: once enough refutations are in
+    # hand (the verdict cannot change) or the wall-clock budget is used up, the remaining paths are left
+    # unexplored and reported as such (UNDECIDED), never as discharged
+    budget = float(_os.environ.get('PYVC_FUNCTION_BUDGET_S', '300' if _os.environ.get('VERIF_TIER', 'quick') == 'quick' else '3000'))
+    max_refuted = int(_os.environ.get('PYVC_MAX_REFUTED', '80'))
+    n_refuted = 0
     while work:
         prefix = work.pop()
         n += 1
         if n > max_paths:
             res.unsupported.append((n, 'path budget exceeded (%d)' % max_paths))
+            break
+        if n_refuted >= max_refuted:
+            res.unsupported.append((n, 'exploration stopped after %d refuted obligations (%d paths left unexplored)'
+                                    % (n_refuted, len(work) + 1)))
+            break
+        if _time.time() - t_start > budget:
+            res.unsupported.append((n, 'time budget of %ds for this function used up (%d paths left unexplored)'
+                                    % (budget, len(work) + 1)))
             break
         p = Path(prefix, n)
         outcome = None
@@ -286,6 +302,7 @@ def explore(run, max_paths=20000, on_path=None):
             for o in others:
                 work.append(base + [o])
         res.obligations.extend(p.obligations)
+        n_refuted += sum(1 for ob in p.obligations if ob.status == 'refuted')
         res.solver_seconds += p.solver_seconds
         res.outcomes.append(outcome)
         if on_path:
